@@ -161,7 +161,7 @@ func (ex *Exec) Discharge(timeout time.Duration, keepScripts string) []*OblResul
 	var jobs []job
 	var inputs []*Term
 	for _, in := range ex.inputs {
-		if in.Term != nil {
+		if in.Term != nil && in.Term.Sort.Kind != SArray {
 			inputs = append(inputs, in.Term)
 		}
 	}
